@@ -246,8 +246,8 @@ def run_check(prop, tier, seed):
         for a, st in r.get('asserts', {}).items():
             d = asserts.setdefault(a, dict(reached=0, violated=0, unknown=0, witnesses=[]))
             d['reached'] += st['reached']; d['violated'] += st['violated']; d['unknown'] += st['unknown']
-            if st.get('witness') is not None and len(d['witnesses']) < 400:
-                d['witnesses'].append((r['id'], st['witness']))
+            if st['reached'] > 0 and len(d['witnesses']) < spec.get('witness_replays', 400):
+                d['witnesses'].append((r['id'], st.get('witness') or []))
         for s, n in (r.get('panic_sites') or {}).items():
             panic_sites[s] = panic_sites.get(s, 0) + n
         p = r.get('partition')
@@ -292,7 +292,7 @@ def run_check(prop, tier, seed):
     wits = []
     for a, d in sorted(asserts.items()):
         ws = d['witnesses']
-        step = max(1, len(ws) // max(1, nwit // max(1, len(asserts))))
+        step = max(1, len(ws) // max(1, nwit // max(1, len(asserts)))) if len(ws) > nwit else 1
         for jid, w in ws[::step]:
             wits.append(dict(kind='witness', assert_id=a, job=byid[jid], group=gof[jid], v={'vector': w, 'assert': a}))
     runner = Runner(work, race=bool(spec.get('race')))
@@ -357,7 +357,12 @@ def run_check(prop, tier, seed):
         rp = resp.get(c['rid'])
         if rp is None:
             continue
-        if rp.get('mismatch'):
+        if rp.get('mismatch') and rp['mismatch'].startswith('replay vector exhausted') and c['assert_id'] in (rp.get('reached') or []) \
+                and c['assert_id'] not in (rp.get('failed') or []):
+            # the witness is the input prefix that reaches the assertion; later inputs are not part of it
+            wit_ok += 1
+            validated += 1
+        elif rp.get('mismatch'):
             inconcl.append('witness replay mismatch (%s) in %s' % (rp['mismatch'], c['job']['id']))
         elif spec.get('race') and rp.get('race'):
             validated += 1
@@ -374,6 +379,11 @@ def run_check(prop, tier, seed):
         elif c['assert_id'] in (rp.get('reached') or []) or (rp.get('notes') or {}).get('lift') or c['group'].get('lift'):
             wit_ok += 1
             validated += 1
+            if c['group'].get('compare_notes'):
+                en, nn = c['job'].get('notes') or {}, rp.get('notes') or {}
+                for k in sorted(set(en) | set(k for k in nn if k.startswith('eq:'))):
+                    if en.get(k) != nn.get(k):
+                        inconcl.append('translator validation: %s differs on %s: engine=%r native=%r' % (k, c['job']['args'], en.get(k), nn.get(k)))
         else:
             inconcl.append('native run does not reach %s on its witness (%s)' % (c['assert_id'], c['job']['id']))
 
